@@ -20,10 +20,13 @@
     Refuted on the code as it is (known finding, behaviour looks intended), which is why C08_keeps_placement carries
     the valid-identity premise:
       C08_shrink_refuted        an instance on a down server inside its retention window is removed when its identity
-                                group shrinks below its identity. *)
+                                group shrinks below its identity;
+      C08_renewal_refuted       an instance flagged for renewal whose lease no longer fits is moved off a frozen server
+                                (hence the premise a_renew = false; C07 exempts a failing renewal, C08 does not). *)
 From Coq Require Import ZArith QArith List Bool.
 From TM Require Import Sched.Vec Sched.Types Sched.Queue Sched.Tree Sched.Cycle Sched.Events Sched.MapsP Sched.Steps Sched.FrameP
                        Sched.InvAcct Sched.InvIdent Sched.TurnP Sched.CycleP Sched.KeepP Sched.Reach.
+From TM Require Import Base.ShapeCanon.
 Import ListNotations.
 Open Scope Z_scope.
 
@@ -103,6 +106,25 @@ Theorem C08_shrink_refuted :
 Proof. vm_compute. eexists. eexists. eexists. repeat split; reflexivity. Qed.
 Print Assumptions C08_shrink_refuted.
 
+(** the code as it is, second exemption the statement does not list: instance 1 (lease 50) runs on server 1000, which is
+    frozen and then announces a reboot at 1010; flagged for renewal at 1000 the lease no longer fits, and the cycle moves
+    the instance to server 1001 although it was not marked for unscheduling *)
+Definition ex_l (n o : Z) : app :=
+  mkApp n 1 [10;10;10] 3000 [] 0 50 (Some 100) None false o None None None None false false false false (-1).
+Definition ex_ops_renew : list op :=
+  [ OAddBucket 2001 3 2000; OAddServer 1000 2001 [100;100;100] 4000 0 5000; OTick 1000; OAddApp 4000 [] (ex_l 1 1);
+    OSchedule []; OAddServer 1001 2001 [100;100;100] 4000 0 9000; OSetState 1000 Frozen 1000; OSetValidUntil 1000 1010;
+    OSetRenew 1; OSchedule [] ].
+Theorem C08_renewal_refuted :
+  let c0 := run (init_cell 3 2000 1) (firstn 9 ex_ops_renew) in
+  let c := run (init_cell 3 2000 1) ex_ops_renew in
+  exists a0 s a, get_app 1 (c_apps c0) = Some a0 /\ a_server a0 = Some 1000 /\ a_unschedule a0 = false /\
+                 a_blacklisted a0 = false /\ a_renew a0 = true /\
+                 get_srv 1000 (c_servers c0) = Some s /\ s_state s = Frozen /\
+                 get_app 1 (c_apps c) = Some a /\ a_server a = Some 1001.
+Proof. vm_compute. eexists. eexists. eexists. repeat split; reflexivity. Qed.
+Print Assumptions C08_renewal_refuted.
+
 (** non-vacuity of C08_keeps_placement: the same history without the shrink; instance 3 sits on the down server inside
     its retention window and is still there after the cycle *)
 Definition ex_ops_keep : list op :=
@@ -119,3 +141,10 @@ Example C08_keeps_nonvacuous :
   forallb (fun lq => forallb (fun e => negb (Z.eqb (e_rank e) UNPLACED_RANK)) (snd lq)) (snd (fst (schedule c []))) = true /\
   option_map a_server (get_app 3 (c_apps (step c (OSchedule [])))) = Some (Some 1000).
 Proof. vm_compute. split; [eexists; eexists; repeat split; reflexivity|split; reflexivity]. Qed.
+
+(** the functions of treadmill/scheduler/__init__.py these theorems were proved about still have the statement
+    skeleton the model was written from (re-extracted from the Python AST on every run, harness/tables_shape.py;
+    kept last so that a difference does not stop the theorems above from being checked) *)
+Theorem C08_source_shape : shapes_ok_C08 = true.
+Proof. vm_compute. reflexivity. Qed.
+Print Assumptions C08_source_shape.
